@@ -23,7 +23,20 @@ mod shared {
 }
 use shared::util::itime::{IDate, IEpochDay, IWeekday};
 
-const WDS: [Weekday; 7] = [
+#[path = "c01/ctor2.rs"]
+mod ctor2;
+#[path = "c01/facts2.rs"]
+mod facts2;
+#[path = "c01/nth.rs"]
+mod nth;
+#[path = "c01/stat.rs"]
+mod stat;
+#[path = "c01/weekday.rs"]
+mod weekday;
+#[path = "c01/with.rs"]
+mod with;
+
+pub(crate) const WDS: [Weekday; 7] = [
     Weekday::Sunday,
     Weekday::Monday,
     Weekday::Tuesday,
@@ -32,6 +45,12 @@ const WDS: [Weekday; 7] = [
     Weekday::Friday,
     Weekday::Saturday,
 ];
+
+pub(crate) fn start_state(n: i64) -> Succ {
+    let (y, m, d) = cal::civil_from_days(n);
+    let (iy, iw, _) = cal::iso_week_date(y, m, d);
+    Succ { y, m, d, wd: cal::weekday_from_days(n), doy: cal::day_of_year(y, m, d), epoch_day: n, iso_y: iy, iso_w: iw }
+}
 
 fn main() {
     let r = Report::from_args("C01");
@@ -48,11 +67,6 @@ fn main() {
     let bounds: Vec<(i64, i64)> = (0..nchunks)
         .map(|c| (min + total * c / nchunks, min + total * (c + 1) / nchunks - 1))
         .collect();
-    let start_state = |n: i64| -> Succ {
-        let (y, m, d) = cal::civil_from_days(n);
-        let (iy, iw, _) = cal::iso_week_date(y, m, d);
-        Succ { y, m, d, wd: cal::weekday_from_days(n), doy: cal::day_of_year(y, m, d), epoch_day: n, iso_y: iy, iso_w: iw }
-    };
 
     r.section("facts", || {
         let epoch = Date::new(1970, 1, 1).unwrap();
@@ -84,6 +98,7 @@ fn main() {
                         r.viol("facts", "model-closed-form-vs-successor", format!("{:?}", s), "reference model inconsistent");
                     }
                     check_date(&r, &s, epoch, min, max);
+                    facts2::check_date_ext(&r, &s, epoch, min, max);
                     n_ok += 1;
                     if s.m == 2 && s.d == 29 {
                         leap += 1;
@@ -98,7 +113,7 @@ fn main() {
                 }
                 r.add_states(n_ok);
                 r.add_transitions(n_ok.saturating_sub(1));
-                r.add_validated(n_ok * 21);
+                r.add_validated(n_ok * (21 + facts2::N_EXT_FACTS));
                 r.count("dates_checked", n_ok);
                 r.count("leap_days", leap);
                 r.count("w53_days", w53);
@@ -127,7 +142,8 @@ fn main() {
             }
             s = p;
         }
-        r.sample(json!({"state": format!("{:?}", start_state(19782)), "facts_checked": FACTS}));
+        facts2::check_consts(&r);
+        r.sample(json!({"state": format!("{:?}", start_state(19782)), "facts_checked": FACTS, "facts_checked_ext": facts2::EXT_FACTS}));
     });
 
     r.section("ctor", || {
@@ -169,103 +185,34 @@ fn main() {
         r.count("ctor_triples", n);
     });
 
-    r.section("nth_of_month", || {
-        let months: Vec<(i64, i64)> = (cal::MIN_YEAR..=cal::MAX_YEAR).flat_map(|y| (1..=12).map(move |m| (y, m))).collect();
-        let n: u64 = months
-            .par_iter()
-            .map(|&(y, m)| {
-                let mut n = 0;
-                // from two different days of the month: the answer must not depend on the day
-                for &day in &[1i64, 28] {
-                    let base = Date::new(y as i16, m as i8, day as i8).unwrap();
-                    for nth in -6..=6i64 {
-                        for (wi, wd) in WDS.iter().enumerate() {
-                            n += 1;
-                            let want = cal::nth_weekday_of_month(y, m, nth, wi as u8);
-                            match guard(|| base.nth_weekday_of_month(nth as i8, *wd)) {
-                                Err(p) => r.viol("nth_of_month", &format!("nth_weekday_of_month/{}", panic_sig(&p)), format!("{}-{} nth={} wd={}", y, m, nth, wi), p),
-                                Ok(got) => {
-                                    let got = got.ok().map(vf::conv::date_epoch_day);
-                                    if got != want {
-                                        r.viol("nth_of_month", "nth_weekday_of_month/value", format!("{}-{:02} nth={} wd={}", y, m, nth, wi), format!("jiff {:?} model {:?}", got, want));
-                                    }
-                                }
-                            }
-                        }
-                    }
-                }
-                n
-            })
-            .sum();
-        r.add_states(n);
-        r.add_validated(n);
-        r.count("nth_of_month_calls", n);
-    });
+    r.section("ctor_const", || ctor2::run_const(&r));
+    r.section("ctor_edge", || ctor2::run_edge(&r));
+    r.section("with", || with::run(&r));
+    r.section("weekday", || weekday::run(&r));
 
-    r.section("nth_weekday", || {
-        let nths: &[i64] = if r.quick() { &[1, -1] } else { &[1, -1, 2, -2, 5, -5] };
-        let n: u64 = bounds
-            .par_iter()
-            .map(|&(lo, hi)| {
-                let mut n = 0;
-                for e in lo..=hi {
-                    let d = vf::conv::date_from_epoch_day(e).unwrap();
-                    let cur = cal::weekday_from_days(e) as i64;
-                    for &nth in nths {
-                        for (wi, wd) in WDS.iter().enumerate() {
-                            n += 1;
-                            let want = nth_weekday_model(e, cur, nth, wi as i64, min, max);
-                            match guard(|| d.nth_weekday(nth as i32, *wd)) {
-                                Err(p) => r.viol("nth_weekday", &format!("nth_weekday/{}", panic_sig(&p)), format!("{} nth={} wd={}", d, nth, wi), p),
-                                Ok(got) => {
-                                    let got = got.ok().map(vf::conv::date_epoch_day);
-                                    if got != want {
-                                        r.viol("nth_weekday", "nth_weekday/value", format!("{} nth={} wd={}", d, nth, wi), format!("jiff {:?} model {:?}", got, want));
-                                    }
-                                }
-                            }
-                        }
-                    }
-                }
-                n
-            })
-            .sum();
-        r.add_states(n);
-        r.add_validated(n);
-        // pool dates x extreme nth
-        let big: &[i64] = &[0, 52, -52, 1_043_497, -1_043_497, 1_043_498, -1_043_498, i32::MIN as i64, i32::MAX as i64, 600_000, -600_000];
-        let mut m = 0;
-        for d in vf::pools::dates() {
-            let e = vf::conv::date_epoch_day(d);
-            let cur = cal::weekday_from_days(e) as i64;
-            for &nth in big {
-                for (wi, wd) in WDS.iter().enumerate() {
-                    m += 1;
-                    let want = if nth == 0 { None } else { nth_weekday_model(e, cur, nth, wi as i64, min, max) };
-                    match guard(|| d.nth_weekday(nth as i32, *wd)) {
-                        Err(p) => r.viol("nth_weekday", &format!("nth_weekday/{}", panic_sig(&p)), format!("{} nth={} wd={}", d, nth, wi), p),
-                        Ok(got) => {
-                            let got = got.ok().map(vf::conv::date_epoch_day);
-                            if got != want {
-                                r.viol("nth_weekday", "nth_weekday/value", format!("{} nth={} wd={}", d, nth, wi), format!("jiff {:?} model {:?}", got, want));
-                            }
-                        }
-                    }
-                }
-            }
-        }
-        r.add_states(m);
-        r.add_validated(m);
-        r.count("nth_weekday_calls", n + m);
-    });
+    r.section("nth_of_month", || nth::run_of_month(&r));
+
+    r.section("nth_weekday", || nth::run_nth_weekday(&r, &bounds, min, max));
 
     r.section("iso_ctor", || {
-        let ys: Vec<i64> = (-10000..=10000).collect();
-        let n: u64 = ys
+        let mut ys: Vec<i64> = (-10000..=10000).collect();
+        ys.extend_from_slice(&[i16::MIN as i64, i16::MIN as i64 + 1, -10001, 10001, i16::MAX as i64 - 1, i16::MAX as i64]);
+        let mut ws: Vec<i64> = (-2..=56).collect();
+        ws.extend_from_slice(&[i8::MIN as i64, -127, -53, -52, 64, 65, 105, 126, i8::MAX as i64]);
+        let (n, valid): (u64, u64) = ys
             .par_iter()
             .map(|&y| {
                 let mut n = 0;
-                for w in -1..=54i64 {
+                let mut valid = 0u64;
+                // the previous valid ISO week date in enumeration order (which is
+                // date order) and its epoch day
+                let mut prev: Option<(ISOWeekDate, i64)> = None;
+                if (cal::MIN_YEAR + 1..=cal::MAX_YEAR).contains(&y) {
+                    if let Ok(Ok(p)) = guard(|| ISOWeekDate::new((y - 1) as i16, cal::iso_weeks_in_year(y - 1) as i8, Weekday::Sunday)) {
+                        prev = Some((p, cal::iso_week1_monday(y) - 1));
+                    }
+                }
+                for &w in &ws {
                     for wd in 1..=7i64 {
                         n += 1;
                         let want = if (cal::MIN_YEAR..=cal::MAX_YEAR).contains(&y) {
@@ -282,21 +229,66 @@ fn main() {
                                     r.viol("iso_ctor", "ISOWeekDate::new/value", format!("{}-W{}-{}", y, w, wd), format!("jiff {:?} model {:?}", gd, want));
                                 }
                                 if let Ok(g) = got {
+                                    valid += 1;
                                     let long = cal::iso_weeks_in_year(y) == 53;
                                     if g.in_long_year() != long || g.weeks_in_year() as i64 != cal::iso_weeks_in_year(y) {
                                         r.viol("iso_ctor", "ISOWeekDate/weeks_in_year", format!("{}-W{}-{}", y, w, wd), format!("jiff {} model {}", g.weeks_in_year(), cal::iso_weeks_in_year(y)));
+                                    }
+                                    // extension: the fields read back, the Gregorian date converts back, order
+                                    match guard(|| (facts2::iso3(g), facts2::iso3(g.date().iso_week_date()), prev.map(|(p, _)| (p < g, g > p, p == g, p.cmp(&g))))) {
+                                        Err(p) => r.viol("iso_ctor", &format!("ISOWeekDate::new/{}", panic_sig(&p)), format!("{}-W{}-{}", y, w, wd), p),
+                                        Ok((f, rt, ord)) => {
+                                            if f != (y, w, wd) {
+                                                r.viol("iso_ctor", "ISOWeekDate::new/fields", format!("{}-W{}-{}", y, w, wd), format!("jiff {:?}", f));
+                                            }
+                                            if rt != (y, w, wd) {
+                                                r.viol("iso_ctor", "ISOWeekDate::date/iso_week_date-roundtrip", format!("{}-W{}-{}", y, w, wd), format!("jiff {:?}", rt));
+                                            }
+                                            if let Some(o) = ord {
+                                                if o != (true, true, false, core::cmp::Ordering::Less) {
+                                                    r.viol("iso_ctor", "ISOWeekDate::cmp/consecutive", format!("{}-W{}-{}", y, w, wd), format!("previous valid week date {:?}: (<, >, ==, cmp) = {:?}", prev.map(|x| facts2::iso3(x.0)), o));
+                                                }
+                                            }
+                                        }
+                                    }
+                                    // consecutive valid week dates are consecutive days
+                                    if let (Some((_, pe)), Some(ge)) = (prev, gd) {
+                                        if ge != pe + 1 {
+                                            r.viol("iso_ctor", "ISOWeekDate::new/consecutive-days", format!("{}-W{}-{}", y, w, wd), format!("epoch day {} after {}", ge, pe));
+                                        }
+                                    }
+                                    if let Some(ge) = gd {
+                                        prev = Some((g, ge));
                                     }
                                 }
                             }
                         }
                     }
                 }
-                n
+                (n, valid)
             })
-            .sum();
+            .reduce(|| (0, 0), |a, b| (a.0 + b.0, a.1 + b.1));
         r.add_states(n);
-        r.add_validated(n);
+        r.add_validated(n + 3 * valid);
         r.count("iso_triples", n);
+        r.count("iso_triples_valid", valid);
+        r.require(valid == total as u64, "valid ISO week dates are in bijection with the dates");
+        // order on a pool, all pairs
+        let pool: Vec<(ISOWeekDate, i64)> = vf::pools::dates().into_iter().map(|d| (d.iso_week_date(), vf::conv::date_epoch_day(d))).collect();
+        for (a, ea) in &pool {
+            for (b, eb) in &pool {
+                r.add_validated(1);
+                match guard(|| (a.cmp(b), a.partial_cmp(b), a == b)) {
+                    Err(p) => r.viol("iso_ctor", &format!("ISOWeekDate::cmp/{}", panic_sig(&p)), format!("{:?} {:?}", a, b), p),
+                    Ok(got) => {
+                        let want = (ea.cmp(eb), Some(ea.cmp(eb)), ea == eb);
+                        if got != want {
+                            r.viol("iso_ctor", "ISOWeekDate::cmp/pool", format!("{:?} {:?}", facts2::iso3(*a), facts2::iso3(*b)), format!("jiff {:?} model {:?}", got, want));
+                        }
+                    }
+                }
+            }
+        }
     });
 
     r.section("static_itime", || {
@@ -308,6 +300,7 @@ fn main() {
                 loop {
                     n += 1;
                     check_idate(&r, &s, min, max);
+                    stat::check_idate_ext(&r, &s, min, max, r.thorough());
                     if s.epoch_day == hi {
                         break;
                     }
@@ -316,8 +309,17 @@ fn main() {
                 n
             })
             .sum();
-        r.add_validated(n);
+        r.add_validated(n * (10 + stat::N_STATIC_EXT));
         r.count("static_itime_dates", n);
+        stat::run_small(&r);
+        // is the generated copy still the generated copy? (recorded, not judged)
+        let a = include_str!("/repo/src/shared/util/itime.rs");
+        let b = include_str!("/repo/crates/jiff-static/src/shared/util/itime.rs");
+        let same = b.ends_with(a) && b.len() - a.len() < 80;
+        r.outcome("static_copy_textually_identical_to_src_shared_util_itime", same as u64);
+        if !same {
+            r.note("crates/jiff-static/src/shared/util/itime.rs differs textually from src/shared/util/itime.rs (beyond the generated-by header)");
+        }
     });
 
     r.require(r.get_count("dates_checked") == total as u64 || r.only_section.is_some(), "all 7304484 dates visited");
@@ -327,25 +329,6 @@ fn main() {
 }
 
 const FACTS: &str = "new, epoch-day (until Day from 1970-01-01), epoch+days, weekday, day_of_year, day_of_year_no_leap, days_in_month, in_leap_year, days_in_year, first/last_of_month, first/last_of_year, tomorrow, yesterday, iso_week_date and back, era_year";
-
-fn nth_weekday_model(e: i64, cur: i64, nth: i64, wd: i64, min: i64, max: i64) -> Option<i64> {
-    if nth.abs() > 1_043_497 {
-        // documented input domain of nth: the span-of-weeks limit
-        return None;
-    }
-    let t = if nth > 0 {
-        let first = (wd - cur - 1).rem_euclid(7) + 1; // 1..=7 days ahead
-        e + first + 7 * (nth - 1)
-    } else {
-        let first = (cur - wd - 1).rem_euclid(7) + 1;
-        e - first - 7 * (-nth - 1)
-    };
-    if (min..=max).contains(&t) {
-        Some(t)
-    } else {
-        None
-    }
-}
 
 fn check_date(r: &Report, s: &Succ, epoch: Date, min: i64, max: i64) {
     let case = || format!("{:04}-{:02}-{:02}", s.y, s.m, s.d);
